@@ -404,13 +404,43 @@ def rule_classification(ctx, rep, rid='R2'):
     rep.analysed(b)
     ib = inl(cad, b)
     T = Terms(ib)
-    if ib.blocks[0]['term']['k'] != 'switch':
-        rep.unknown(rid, 'update/shape', b.where(), 'update does not start with a match on the result')
-        return
-    dt, edges = T.switch_facts(0)
-    if norm(dt)[0] != 'discr' or norm(dt)[1] != ('param', 2):
+    def through_views(x):
+        # `res.as_ref()` / `&res`: the same result, looked at by reference
+        x = norm(x)
+        while True:
+            if x[0] in ('ref', 'deref'):
+                x = x[1]
+            elif x[0] == 'call' and isinstance(x[1], str) and x[1] in ('core::result::Result::as_ref',) and len(x[2]) == 1:
+                x = x[2][0]
+            else:
+                return x
+
+    def unview(x):
+        # payload seen through as_ref(): `*(res.as_ref() as Ok).0` is `(res as Ok).0`
+        if not isinstance(x, tuple) or not x:
+            return x
+        x = tuple(unview(y) if isinstance(y, tuple) else y for y in x)
+        if x[0] == 'deref' and x[1][0] == 'field' and x[1][1][0] == 'payload' and through_views(x[1][1][1]) == ('param', 2) and x[1][1][1] != ('param', 2):
+            return ('field', ('payload', ('param', 2), x[1][1][2]), x[1][2])
+        return x
+    sw0 = None
+    for bi_, blk_ in enumerate(ib.blocks):
+        if blk_['cleanup'] or blk_.get('dead') or blk_['term']['k'] != 'switch':
+            continue
+        d_ = norm(T.switch_facts(bi_)[0])
+        if d_[0] == 'discr' and through_views(d_[1]) == ('param', 2):
+            sw0 = bi_
+            break
+    if sw0 is None:
         rep.unknown(rid, 'update/shape', b.where(), 'update does not match on its result parameter')
         return
+    # nothing is counted before the result is looked at
+    pre_ = reach(ib, [0], stop=lambda q: q == sw0)
+    if any(callee_is(ib.blocks[q]['term'], 'core::sync::atomic::Atomic::fetch_add', 'core::sync::atomic::Atomic::store', 'core::sync::atomic::Atomic::swap', 'core::sync::atomic::Atomic::fetch_sub')
+           for q in pre_ if q != sw0 and ib.blocks[q]['term']['k'] == 'call' and not ib.blocks[q]['cleanup']):
+        rep.unknown(rid, 'update/shape', b.where(), 'update counts before it has looked at the result')
+        return
+    dt, edges = T.switch_facts(sw0)
     ok_s = [s for s, labs in edges.items() if ('variant', 'Ok') in labs]
     er_s = [s for s, labs in edges.items() if ('variant', 'Err') in labs]
     fa = {}
@@ -430,7 +460,7 @@ def rule_classification(ctx, rep, rid='R2'):
                 # which counter / how much, as seen on this side (a counter picked by the match on the result is a phi
                 # in general and one definite counter once the side is fixed)
                 ctr = norm(Tr.call_term(bi))
-                fld, amt = leaf_field_name(ctr[2][0]), ctr[2][1]
+                fld, amt = leaf_field_name(ctr[2][0]), norm(unview(ctr[2][1]))
                 got.setdefault(fld, []).append((op, amt, bi))
         bad = []
         for fld, amount_ok in want.items():
